@@ -202,7 +202,7 @@ theorem authUser_eq (H : Hashes) (r n : Nat) (o u : Bytes) (p : Int) (id : Bytes
 theorem from_password_rc4 {P : Prims} {H : Hashes} (hp : PrimsAgree P H) (hw : H.WF) (d : CryptDict) (id pass : Bytes)
     (n : Nat) (m : Method) (hsel : selectMethod d = .ok (8 * n, m)) (hn : 1 ≤ n ∧ n ≤ 16) (hr : 2 ≤ d.r ∧ d.r ≤ 4) :
     fromPassword P d id pass = .ok (match authenticate H d.r n d.o d.u d.p id d.encryptMetadata pass with
-      | some dg => .decoder (Decoder.mk' dg n m d.encryptMetadata)
+      | some dg => .decoder (Decoder.mk' dg n m (d.encryptMetadata || decide (d.r < 4)))
       | none => .invalidPassword) := by
   have hlen : ∀ pw, ((alg2Digest H d.r n d.o d.p id d.encryptMetadata pw).take n).length = n := by
     intro pw; rw [List.length_take, alg2Digest_length hw]; omega
@@ -279,7 +279,8 @@ theorem alg2Digest_pad32 (H : Hashes) (r n : Nat) (o : Bytes) (p : Int) (id0 : B
 theorem user_password_accepted_rc4 {P : Prims} {H : Hashes} (hp : PrimsAgree P H) (hw : H.WF) (d : CryptDict) (id0 : Bytes)
     (n : Nat) (m : Method) (hsel : selectMethod d = .ok (8 * n, m)) (hn : 1 ≤ n ∧ n ≤ 16) (hr : 2 ≤ d.r ∧ d.r ≤ 4)
     (userPw ownerPw tail : Bytes) (w : WrittenRc4 H d id0 n userPw ownerPw tail) :
-    ∃ dec, fromPassword P d id0 userPw = .ok (.decoder dec) ∧ dec.method = m ∧ dec.encryptMetadata = d.encryptMetadata ∧
+    ∃ dec, fromPassword P d id0 userPw = .ok (.decoder dec) ∧ dec.method = m ∧
+      dec.encryptMetadata = (d.encryptMetadata || decide (d.r < 4)) ∧
       dec.keyOf = .ok (alg2Key H d.r n d.o d.p id0 d.encryptMetadata userPw) := by
   rw [from_password_rc4 hp hw d id0 userPw n m hsel hn hr]
   unfold authenticate
@@ -297,7 +298,8 @@ theorem owner_password_accepted_rc4 {P : Prims} {H : Hashes} (hp : PrimsAgree P 
     (userPw ownerPw tail : Bytes) (w : WrittenRc4 H d id0 n userPw ownerPw tail)
     (hcoll : UCheck H d.r d.u id0 ((alg2Digest H d.r n d.o d.p id0 d.encryptMetadata ownerPw).take n) →
       (alg2Digest H d.r n d.o d.p id0 d.encryptMetadata ownerPw).take n = alg2Key H d.r n d.o d.p id0 d.encryptMetadata userPw) :
-    ∃ dec, fromPassword P d id0 ownerPw = .ok (.decoder dec) ∧ dec.method = m ∧ dec.encryptMetadata = d.encryptMetadata ∧
+    ∃ dec, fromPassword P d id0 ownerPw = .ok (.decoder dec) ∧ dec.method = m ∧
+      dec.encryptMetadata = (d.encryptMetadata || decide (d.r < 4)) ∧
       dec.keyOf = .ok (alg2Key H d.r n d.o d.p id0 d.encryptMetadata userPw) := by
   rw [from_password_rc4 hp hw d id0 ownerPw n m hsel hn hr]
   unfold authenticate
@@ -359,7 +361,7 @@ theorem accepted_only_if_authenticated_rc4 {P : Prims} {H : Hashes} (hp : PrimsA
   | none => rw [ha] at hacc; cases hacc
   | some dg =>
     rw [ha] at hacc
-    have hd : dec = Decoder.mk' dg n m d.encryptMetadata := by
+    have hd : dec = Decoder.mk' dg n m (d.encryptMetadata || decide (d.r < 4)) := by
       injection hacc with h; injection h with h; exact h.symm
     have ⟨hl, hu⟩ := authenticate_some hw _ _ _ _ _ _ _ _ _ ha
     refine ⟨dg, rfl, ?_, hu⟩
